@@ -25,6 +25,7 @@ import (
 
 type node struct {
 	name     string
+	link     string // symbolic link target (absolute path in this tree)
 	dir      bool
 	children map[string]*node
 	data     []byte
@@ -138,17 +139,30 @@ func norm(p string) string {
 	return path.Clean(p)
 }
 
-func (f *FS) lookup(p string) *node {
+// lookup resolves a path, following symbolic links (also in the last component).
+func (f *FS) lookup(p string) *node { return f.resolve(p, true, 0) }
+
+// lookupNoFollow does not follow a symbolic link in the last component (Lstat).
+func (f *FS) lookupNoFollow(p string) *node { return f.resolve(p, false, 0) }
+
+func (f *FS) resolve(p string, followLast bool, depth int) *node {
 	p = norm(p)
 	if p == "/" {
 		return f.root
 	}
+	if depth > 8 {
+		return nil
+	}
 	n := f.root
-	for _, part := range strings.Split(p[1:], "/") {
+	parts := strings.Split(p[1:], "/")
+	for i, part := range parts {
 		if n == nil || !n.dir {
 			return nil
 		}
 		n = n.children[part]
+		if n != nil && n.link != "" && (followLast || i < len(parts)-1) {
+			n = f.resolve(n.link, true, depth+1)
+		}
 	}
 	return n
 }
@@ -558,7 +572,11 @@ func (f *FS) list(n *node) []fs.DirEntry {
 	sort.Strings(names)
 	out := make([]fs.DirEntry, 0, len(names))
 	for _, k := range names {
-		out = append(out, nodeInfo(n.children[k]))
+		inf := nodeInfo(n.children[k])
+		if n.children[k].link != "" {
+			inf.mode = fs.ModeSymlink | 0o777
+		}
+		out = append(out, inf)
 	}
 	return out
 }
@@ -703,10 +721,35 @@ func Stat(name string) (fs.FileInfo, error) {
 }
 
 func Lstat(name string) (fs.FileInfo, error) {
-	if current() == nil {
+	f := current()
+	if f == nil {
 		return os.Lstat(name)
 	}
-	return Stat(name)
+	if err, _ := f.step("stat", name, 0, false); err != nil {
+		return nil, pathErr("lstat", name, err)
+	}
+	f.mu.Lock()
+	defer f.mu.Unlock()
+	n := f.lookupNoFollow(name)
+	if n == nil {
+		return nil, pathErr("lstat", name, syscall.ENOENT)
+	}
+	inf := nodeInfo(n)
+	if n.link != "" {
+		inf.mode = fs.ModeSymlink | 0o777
+		inf.name = path.Base(norm(name))
+	}
+	return inf, nil
+}
+
+// PutSymlink creates a symbolic link (harness side, not logged).
+func (f *FS) PutSymlink(p, target string) {
+	f.Put(p, nil)
+	f.mu.Lock()
+	if n := f.lookupNoFollow(p); n != nil {
+		n.link = norm(target)
+	}
+	f.mu.Unlock()
 }
 
 func ReadFile(name string) ([]byte, error) {
